@@ -233,6 +233,11 @@ pub fn run(seed: u64, n: usize, outdir: &str, _corpus: Option<&str>) -> std::io:
         };
         let raw = build(false);
         let dual = build(true);
+        // the implementation's own split of the template positions (hook; same thread as the build)
+        let split_t = match &dual {
+            Outcome::Ok(_) => format!("(Some {})", clist(&vibrato::Dictionary::verif_last_dual_split(), |p| format!("{}%N", p))),
+            _ => "None".to_string(),
+        };
         // matrix.def materialised from the defining sums (when they fit 16 bits)
         let fits = (0..nr).all(|r| (0..nl).all(|l| bg.spec(r, l).abs() <= 32767));
         let matrix = if fits {
@@ -277,11 +282,11 @@ pub fn run(seed: u64, n: usize, outdir: &str, _corpus: Option<&str>) -> std::io:
             _ => 2, // not comparable
         };
         let term = format!(
-            "(Build_c07case {} {} {} {} {} {} {} {})",
+            "(Build_c07case {} {} {} {} {} {} {} {} {})",
             clist(&bg.right, |r| clist(r, |f| cstr(f))),
             clist(&bg.left, |r| clist(r, |f| cstr(f))),
             clist(&bg.cost, |(a, b, c)| format!("({}, {}, {})", cstr(a), cstr(b), cz(*c as i64))),
-            bg.k, raw_t, dual_t, same(&t_raw, &t_dual), same(&t_raw, &t_mat)
+            bg.k, raw_t, dual_t, same(&t_raw, &t_dual), same(&t_raw, &t_mat), split_t
         );
         let human = format!("bigram.right={} bigram.left={} bigram.cost={}", json_str(&rf), json_str(&lf), json_str(&cf));
         *dist.entry(format!("templates_{}", if bg.k < 8 { "lt8" } else if bg.k == 8 { "8" } else { "gt8" })).or_default() += 1;
